@@ -9,6 +9,7 @@ import DDProofs.MddConv
 import DDProofs.SubstWrappers
 import DDProofs.SatPick
 import DDProofs.VarsProofs
+import DDProofs.MddCofPath
 open Std
 
 namespace DD
@@ -268,61 +269,65 @@ theorem cofVals_key {t : Tbl} {bits : List String} (i : Nat) {b : String} (hb : 
   rw [this, enumBits_names]
   exact List.mem_map.mpr ⟨b, hb, rfl⟩
 
-/-- `cofactor` with declared names as keys (C04), in the form used here -/
-theorem C04_cofactor_names_aux (m : Mgr) (hI : Inv m) (hoff : m.lastLen = none) (u : Int)
-    (hu : m.tbl.Mem u) (d : List (String × Bool))
-    (hdecl : ∀ p, p ∈ d → m.tbl.vars.contains p.1 = true) :
-    ∃ r m', cofactor u (d.map fun p => (Key.name p.1, p.2)) m = (.ok r, m') ∧ Inv m' ∧
-      Ext m.tbl m'.tbl ∧ m'.tbl.Mem r ∧ Frame m m' ∧
-      ∀ a, den m'.tbl r a = den m.tbl u (ovr ((d.map fun p => (lvlOf m.tbl p.1, p.2)).reverse) a) := by
-  have hkeys : (d.map fun p => (Key.name p.1, p.2)).map (·.1) = (d.map (·.1)).map Key.name := by
-    simp [List.map_map, Function.comp_def]
-  have hlv : mapToLevelE m.tbl ((d.map fun p => (Key.name p.1, p.2)).map (·.1)) =
-      .ok ((d.map (·.1)).map (lvlOf m.tbl)) := by
-    rw [hkeys]
-    apply mapToLevelE_names
-    intro s hs
-    obtain ⟨p, hp, rfl⟩ := List.mem_map.mp hs
-    exact hdecl p hp
-  obtain ⟨r, m', h1, h2, h3, h4, h5, h6⟩ := cofactor_spec m hI hoff u hu _ _ hlv
-  refine ⟨r, m', h1, h2, h3, h4, h5, ?_⟩
-  intro a
-  rw [h6 a]
-  have : ((d.map (·.1)).map (lvlOf m.tbl)).zip ((d.map fun p => (Key.name p.1, p.2)).map (·.2)) =
-      d.map fun p => (lvlOf m.tbl p.1, p.2) := by
-    simp only [List.map_map, Function.comp_def]
-    rw [List.zip_map']
-  rw [this]
+/-- inside the zone of `d`, from the level of `u` down to any bit of `d`, every level carries a bit
+of `d` (the zone is contiguous): the covering condition of `cofactor_path` -/
+theorem zone_cover {dvars : List MVar} {t : Tbl} (hz : ZoneOK dvars t) (d : MVar) (hd : d ∈ dvars)
+    (lu : Nat) (hzu : zoneLevel dvars t lu = d.level) (i : Nat) (ℓ : Nat) (hℓ : lu ≤ ℓ)
+    (hj : ∃ p ∈ enumBits d.bits i, ℓ ≤ lvlOf t p.1) :
+    ((cofVals t d.bits i).lookup ℓ).isSome = true := by
+  obtain ⟨p, hp, hle⟩ := hj
+  obtain ⟨k, _, hbk, _⟩ := mem_enumBits hp
+  have hpb : p.1 ∈ d.bits := List.mem_of_getElem? hbk
+  obtain ⟨lp, hlp⟩ := (vars_contains_iff t p.1).mp (hz.decl d hd p.1 hpb)
+  have hlpn : lp < t.nvars := hz.order.lt _ _ hlp
+  rw [lvlOf_eq hlp] at hle
+  have hzp : zoneLevel dvars t lp = d.level := by
+    unfold zoneLevel
+    rw [(hz.order.inv p.1 lp).mp hlp]
+    simp only
+    rw [hz.uniq d hd p.1 hpb]
+  have h1 := hz.mono lu ℓ hℓ (by omega)
+  have h2 := hz.mono ℓ lp hle hlpn
+  obtain ⟨bit', d', hbit', hdl', hdm', hbd'⟩ := hz.owner ℓ (by omega)
+  have hzl : zoneLevel dvars t ℓ = d'.level := by
+    unfold zoneLevel; rw [hbit']; simp only; rw [hdl']
+  have hdd : d' = d := hz.inj d' hdm' d hd (by omega)
+  subst hdd
+  have hlv : lvlOf t bit' = ℓ := lvlOf_eq ((hz.order.inv bit' ℓ).mpr hbit')
+  have := cofVals_key (t := t) i hbd'
+  rwa [hlv] at this
 
+/-- the loop over the values of one integer variable: every `cofactor` call returns normally and
+leaves the manager as it was (for any setting of the reordering switches) -/
 theorem b2mSuccs_spec (dvars : List MVar) (var : MVar) (hd : var ∈ dvars) (u : Nat)
-    (umap : List (Nat × Int)) :
-    ∀ (is : List Nat) (mb : Mgr), Inv mb → mb.lastLen = none → ZoneOK dvars mb.tbl →
-      mb.tbl.Mem (u : Int) →
-      ∀ succs mb', b2mSuccs u var.bits umap is mb = (.ok succs, mb') →
-        Inv mb' ∧ Ext mb.tbl mb'.tbl ∧ Frame mb mb' ∧ succs.length = is.length ∧
+    (umap : List (Nat × Int)) (mb : Mgr) (hW : WF mb.tbl) (hz : ZoneOK dvars mb.tbl)
+    (hu : mb.tbl.Mem (u : Int))
+    (hzu : zoneLevel dvars mb.tbl (mb.tbl.levelOf (u : Int)) = var.level) :
+    ∀ (is : List Nat) (succs : List Int) (mb' : Mgr),
+      b2mSuccs u var.bits umap is mb = (.ok succs, mb') →
+        mb' = mb ∧ succs.length = is.length ∧
         ∀ (j i : Nat) (k : Int), is[j]? = some i → succs[j]? = some k →
           ∃ (x r : Int), umap.lookup x.natAbs = some r ∧ k = (if x > 0 then r else -r) ∧
-            mb'.tbl.Mem x ∧
-            ∀ a, den mb'.tbl x a = den mb.tbl (u : Int) (ovr (cofVals mb.tbl var.bits i) a) := by
+            PathEntry (cofVals mb.tbl var.bits i) mb.tbl (u : Int) x := by
   intro is
   induction is with
   | nil =>
-    intro mb hI hoff hz hu succs mb' hr
+    intro succs mb' hr
     simp only [b2mSuccs, Prod.mk.injEq, Except.ok.injEq] at hr
     obtain ⟨h1, h2⟩ := hr
     subst h1 h2
-    refine ⟨hI, Ext.refl _, Frame.refl _, rfl, ?_⟩
+    refine ⟨rfl, rfl, ?_⟩
     intro j i k hj
     simp at hj
   | cons i0 rest ih =>
-    intro mb hI hoff hz hu succs mb' hr
+    intro succs mb' hr
     unfold b2mSuccs at hr
     have hdecl : ∀ p, p ∈ enumBits var.bits i0 → mb.tbl.vars.contains p.1 = true := by
       intro p hp
       obtain ⟨k, _, hbk, _⟩ := mem_enumBits hp
       exact hz.decl var hd p.1 (List.mem_of_getElem? hbk)
-    obtain ⟨x0, m1, hc, hI1, hE1, hM1, hF1, hden1⟩ :=
-      C04_cofactor_names_aux mb hI hoff (u : Int) hu (enumBits var.bits i0) hdecl
+    obtain ⟨x0, hc, hpe⟩ := cofactor_path mb hW (u : Int) hu (enumBits var.bits i0) hdecl
+      (fun ℓ hℓ hj => zone_cover hz var hd _ hzu i0 ℓ hℓ hj)
     rw [enumInteger_eq, hc] at hr
     simp only at hr
     split at hr
@@ -334,38 +339,26 @@ theorem b2mSuccs_spec (dvars : List MVar) (var : MVar) (hd : var ∈ dvars) (u :
         simp only [Prod.mk.injEq, Except.ok.injEq] at hr
         obtain ⟨hs, hm⟩ := hr
         subst hs hm
-        have hW := hI.wf.toWF
-        have hW1 := hI1.wf.toWF
-        have hz1 : ZoneOK dvars m1.tbl := hz.congr hF1.vars hF1.l2v
-        obtain ⟨hI2, hE2, hF2, hlen, hall⟩ := ih m1 hI1 (by rw [hF1.lastLen]; exact hoff) hz1
-          (hE1.mem hu) rs m2 hrest
-        refine ⟨hI2, hE1.trans hE2, hF1.trans hF2, by simp [hlen], ?_⟩
+        obtain ⟨hm2, hlen, hall⟩ := ih rs m2 hrest
+        refine ⟨hm2, by simp [hlen], ?_⟩
         intro j i k hj hk
         cases j with
         | zero =>
           simp only [List.getElem?_cons_zero, Option.some.injEq] at hj hk
           subst hj hk
-          refine ⟨x0, r0, hl0, rfl, hE2.mem hM1, ?_⟩
-          intro a
-          rw [den_ext hE2 hW1 x0 a hM1]
-          exact hden1 a
+          exact ⟨x0, r0, hl0, rfl, hpe⟩
         | succ j =>
           simp only [List.getElem?_cons_succ] at hj hk
-          obtain ⟨x, r, h1, h2, h3, h4⟩ := hall j i k hj hk
-          refine ⟨x, r, h1, h2, h3, ?_⟩
-          intro a
-          rw [h4 a, den_ext hE1 hW (u : Int) _ hu, cofVals_congr hF1.vars]
+          exact hall j i k hj hk
 
 /-! ### one iteration, BDD side -/
 
-/-- the BDD manager during the main loop: invariant, reordering not enabled, bits in zones, and
-an extension of the table the loop started with -/
+/-- the BDD manager during the main loop: it is the manager the loop started with (nothing is
+created, no counter moves): invariant, bits in zones -/
 structure BSide (dvars : List MVar) (m2 mb : Mgr) : Prop where
   inv : Inv mb
-  off : mb.lastLen = none
   zone : ZoneOK dvars mb.tbl
-  ext : Ext m2.tbl mb.tbl
-  frame : Frame m2 mb
+  eq : mb = m2
 
 /-- MDD level of the zone of BDD node `x` -/
 def Lb (dvars : List MVar) (mb : Mgr) (x : Nat) : Nat :=
@@ -377,29 +370,22 @@ theorem zoneLevel_congr (dvars : List MVar) {t t' : Tbl} (hl : t'.l2v = t.l2v) (
     zoneLevel dvars t' ℓ = zoneLevel dvars t ℓ := by
   unfold zoneLevel; rw [hl]
 
-theorem semMono_of_ext (dvars : List MVar) {mb mb1 : Mgr} (hI : Inv mb) (hE : Ext mb.tbl mb1.tbl)
-    (hF : Frame mb mb1) :
-    SemMono Qb (fun m => semB dvars m.tbl) (Lb dvars) mb mb1 := by
-  intro x hx
-  have hx' : mb.tbl.Mem (x : Int) := hx
-  refine ⟨hE.mem hx', ?_, ?_⟩
-  · unfold Lb
-    rw [hE.levelOf hx', zoneLevel_congr dvars hF.l2v]
-  · intro α
-    show semB dvars mb1.tbl (x : Int) α = semB dvars mb.tbl (x : Int) α
-    rw [semB_nat, semB_nat, lift_congr hF.l2v, den_ext hE hI.wf.toWF (x : Int) _ hx']
+theorem semMono_refl (dvars : List MVar) (mb : Mgr) :
+    SemMono Qb (fun m => semB dvars m.tbl) (Lb dvars) mb mb :=
+  fun _ hx => ⟨hx, rfl, fun _ => rfl⟩
 
-theorem b2mIntSucc_bddSide (dvars : List MVar) (m2 : Mgr) (u : Nat) (umap : List (Nat × Int))
-    (mb : Mgr) (var : MVar) (succs : List Int) (mb1 : Mgr) (hP : BSide dvars m2 mb)
-    (hK : (m2.tbl.node? u).isSome = true)
+/-- what the BDD side of one iteration delivers, with the facts the totality proof needs:
+the variable found, one successor per value, and for each the cofactor it is the image of -/
+theorem b2mIntSucc_facts (dvars : List MVar) (u : Nat) (umap : List (Nat × Int))
+    (mb : Mgr) (var : MVar) (succs : List Int) (mb1 : Mgr) (hI : Inv mb) (hz : ZoneOK dvars mb.tbl)
+    (n : Nd) (hn : mb.tbl.node? u = some n)
     (hr : b2mIntSucc (b2mBitToVar dvars) u umap mb = (.ok (var, succs), mb1)) :
-    BSide dvars m2 mb1 ∧ SemMono Qb (fun m => semB dvars m.tbl) (Lb dvars) mb mb1 ∧ Qb mb1 u ∧
-    BddSideOK (semB dvars mb1.tbl) (Lb dvars mb1) u umap var succs := by
-  have hI := hP.inv
+    mb1 = mb ∧ var ∈ dvars ∧ zoneLevel dvars mb.tbl n.lvl = var.level ∧
+    succs.length = 2 ^ var.bits.length ∧
+    ∀ (i : Nat) (k : Int), succs[i]? = some k →
+      ∃ (x r : Int), umap.lookup x.natAbs = some r ∧ k = (if x > 0 then r else -r) ∧
+        PathEntry (cofVals mb.tbl var.bits i) mb.tbl (u : Int) x := by
   have hW := hI.wf.toWF
-  have hz := hP.zone
-  obtain ⟨n, hn2⟩ := Option.isSome_iff_exists.mp hK
-  have hn : mb.tbl.node? u = some n := hP.ext.nodes u n hn2
   have hu2 : 2 ≤ u := hW.ge_two _ _ hn
   have hu1 : ((u : Nat) : Int).natAbs ≠ 1 := by simp; omega
   have hnode : mb.tbl.node? ((u : Nat) : Int).natAbs = some n := by simpa using hn
@@ -414,94 +400,115 @@ theorem b2mIntSucc_bddSide (dvars : List MVar) (m2 : Mgr) (u : Nat) (umap : List
   simp only at hr
   rw [hdl] at hr
   simp only at hr
+  have hzu0 : zoneLevel dvars mb.tbl n.lvl = d.level := by
+    unfold zoneLevel; rw [hbit]; simp only; rw [hdl]
   split at hr
   · simp at hr
   · next succs' mb1' hs =>
     simp only [Prod.mk.injEq, Except.ok.injEq] at hr
     obtain ⟨⟨hv, hs'⟩, hm⟩ := hr
     subst hv hs' hm
-    obtain ⟨hI1, hE1, hF1, hlen, hall⟩ := b2mSuccs_spec dvars d hdm u umap _ mb hI hP.off hz huM _ _ hs
-    have hW1 := hI1.wf.toWF
-    have hz1 : ZoneOK dvars mb1'.tbl := hz.congr hF1.vars hF1.l2v
-    have huM1 : mb1'.tbl.Mem (u : Int) := hE1.mem huM
-    have hnv1 : mb1'.tbl.nvars = mb.tbl.nvars := by unfold Tbl.nvars; rw [hF1.vars]
-    refine ⟨⟨hI1, by rw [hF1.lastLen]; exact hP.off, hz1, hP.ext.trans hE1, hP.frame.trans hF1⟩,
-      semMono_of_ext dvars hI hE1 hF1, huM1, ?_, ?_⟩
-    · -- the zone of `u` is the zone of the variable found
-      show zoneLevel dvars mb1'.tbl (mb1'.tbl.levelOf (u : Int)) = d.level
-      rw [hE1.levelOf huM, levelOf_node mb.tbl (u : Int) n hu1 hnode, zoneLevel_congr dvars hF1.l2v]
+    have hzu : zoneLevel dvars mb.tbl (mb.tbl.levelOf (u : Int)) = d.level := by
+      rw [levelOf_node mb.tbl (u : Int) n hu1 hnode]; exact hzu0
+    obtain ⟨hmb, hlen, hall⟩ := b2mSuccs_spec dvars d hdm u umap mb hW hz huM hzu _ _ _ hs
+    rw [List.length_range] at hlen
+    refine ⟨hmb, hdm, hzu0, hlen, ?_⟩
+    intro i k hk
+    have hilen : i < succs'.length := by
+      cases hlt : decide (i < succs'.length) with
+      | true => simpa using hlt
+      | false =>
+        have : succs'.length ≤ i := by simpa using hlt
+        rw [List.getElem?_eq_none this] at hk; cases hk
+    exact hall i i k (by rw [List.getElem?_range (by omega)]) hk
+
+/-- a cofactor over all bits of the zone of `d` lies in a later zone, and agrees with `u` where the
+integer variable has the value `i` -/
+theorem pathEntry_side {dvars : List MVar} {mb : Mgr} (hI : Inv mb) (hz : ZoneOK dvars mb.tbl)
+    (d : MVar) (hdm : d ∈ dvars) (u : Nat) (n : Nd) (hn : mb.tbl.node? u = some n)
+    (hzu0 : zoneLevel dvars mb.tbl n.lvl = d.level) (i : Nat) (x : Int)
+    (hpe : PathEntry (cofVals mb.tbl d.bits i) mb.tbl (u : Int) x) :
+    x ≠ 0 ∧ d.level < Lb dvars mb x.natAbs ∧
+    ∀ α, α d.level = i → semB dvars mb.tbl x α = semB dvars mb.tbl (u : Int) α := by
+  have hW := hI.wf.toWF
+  have hu2 : 2 ≤ u := hW.ge_two _ _ hn
+  have hu1 : ((u : Nat) : Int).natAbs ≠ 1 := by simp; omega
+  have hnode : mb.tbl.node? ((u : Nat) : Int).natAbs = some n := by simpa using hn
+  have huM : mb.tbl.Mem (u : Int) := Or.inr (by rw [hnode]; rfl)
+  have h3 := hpe.ent.mr
+  have h4 := hpe.ent.den
+  have hx0 : x ≠ 0 := mem_ne_zero hW h3
+  refine ⟨hx0, ?_, ?_⟩
+  · show d.level < zoneLevel dvars mb.tbl (mb.tbl.levelOf (((x.natAbs : Nat)) : Int))
+    have habs : mb.tbl.levelOf (((x.natAbs : Nat)) : Int) = mb.tbl.levelOf x := by
+      unfold Tbl.levelOf; simp
+    rw [habs]
+    by_cases hx1 : x.natAbs = 1
+    · rw [levelOf_term mb.tbl x hx1]
       unfold zoneLevel
-      rw [hbit]
-      simp only
-      rw [hdl]
-    · intro i k hk
-      -- the i-th cofactor
-      have hilen : i < succs'.length := by
-        cases hlt : decide (i < succs'.length) with
-        | true => simpa using hlt
-        | false =>
-          have : succs'.length ≤ i := by simpa using hlt
-          rw [List.getElem?_eq_none this] at hk; cases hk
-      -- lengths: the result has one entry per value (from the spec, entry by entry)
-      by_cases hir : i < 2 ^ d.bits.length
-      · obtain ⟨x, r, h1, h2, h3, h4⟩ := hall i i k (by rw [List.getElem?_range hir]) hk
-        have hx0 : x ≠ 0 := mem_ne_zero hW1 h3
-        refine ⟨x, r, h1, h2, hx0, ?_, ?_⟩
-        · -- the cofactor lies in a later zone
-          show d.level < zoneLevel dvars mb1'.tbl (mb1'.tbl.levelOf (((x.natAbs : Nat)) : Int))
-          have habs : mb1'.tbl.levelOf (((x.natAbs : Nat)) : Int) = mb1'.tbl.levelOf x := by
-            unfold Tbl.levelOf; simp
-          rw [habs]
-          by_cases hx1 : x.natAbs = 1
-          · rw [levelOf_term mb1'.tbl x hx1]
-            unfold zoneLevel
-            rw [hz1.order.l2v_none]
-            exact hz.lvl d hdm
-          · rcases h3 with h3 | h3
-            · exact absurd h3 hx1
-            · obtain ⟨nx, hnx⟩ := Option.isSome_iff_exists.mp h3
-              rw [levelOf_node mb1'.tbl x nx hx1 hnx]
-              obtain ⟨hge, hnone⟩ := cofactor_level hW hI1.wf (u : Int) x huM (Or.inr (by rw [hnx]; rfl))
-                (cofVals mb.tbl d.bits i) h4 nx hx1 hnx
-              rw [levelOf_node mb.tbl (u : Int) n hu1 hnode] at hge
-              have hnxlt : nx.lvl < mb.tbl.nvars := by rw [← hnv1]; exact hW1.lvl_lt _ _ hnx
-              have hmono := hz.mono n.lvl nx.lvl hge hnxlt
-              have hzu : zoneLevel dvars mb.tbl n.lvl = d.level := by
-                unfold zoneLevel; rw [hbit]; simp only; rw [hdl]
-              rw [zoneLevel_congr dvars hF1.l2v]
-              rw [hzu] at hmono
-              -- not in the zone of `d`
-              have hne : zoneLevel dvars mb.tbl nx.lvl ≠ d.level := by
-                intro heq
-                obtain ⟨bit', d', hbit', hdl', hdm', hbd'⟩ := hz.owner nx.lvl hnxlt
-                have hzl : zoneLevel dvars mb.tbl nx.lvl = d'.level := by
-                  unfold zoneLevel; rw [hbit']; simp only; rw [hdl']
-                have hdd : d' = d := hz.inj d' hdm' d hdm (by rw [← hzl, heq])
-                subst hdd
-                have hlv : lvlOf mb.tbl bit' = nx.lvl :=
-                  lvlOf_eq ((hz.order.inv bit' nx.lvl).mpr hbit')
-                have := cofVals_key (t := mb.tbl) i hbd'
-                rw [hlv, hnone] at this
-                cases this
-              omega
-        · -- it agrees with `u` where the integer variable has the value `i`
-          intro α hα
-          rw [semB_eq dvars hW1 h3, semB_eq dvars hW1 huM1]
-          unfold denN
-          rw [h4, lift_congr hF1.l2v, den_ext hE1 hW (u : Int) _ huM]
-          have hov : ovr (cofVals mb.tbl d.bits i) (mb.tbl.lift (bitsOfInts dvars α)) =
-              mb.tbl.lift (bitsOfInts dvars α) := by
-            unfold cofVals
-            apply ovr_lift_eq hz.order
-            · intro p hp
-              obtain ⟨k', _, hbk, _⟩ := mem_enumBits hp
-              exact hz.decl d hdm p.1 (List.mem_of_getElem? hbk)
-            · exact bitsOfInts_enum hz d hdm α i hα
-          rw [hov]
-      · -- an index beyond the values cannot occur: the spec lists one entry per value
-        exfalso
-        rw [List.length_range] at hlen
+      rw [hz.order.l2v_none]
+      exact hz.lvl d hdm
+    · rcases h3 with h3 | h3
+      · exact absurd h3 hx1
+      · obtain ⟨nx, hnx⟩ := Option.isSome_iff_exists.mp h3
+        rw [levelOf_node mb.tbl x nx hx1 hnx]
+        obtain ⟨hge, hnone⟩ := cofactor_level hW hI.wf (u : Int) x huM (Or.inr (by rw [hnx]; rfl))
+          (cofVals mb.tbl d.bits i) h4 nx hx1 hnx
+        rw [levelOf_node mb.tbl (u : Int) n hu1 hnode] at hge
+        have hnxlt : nx.lvl < mb.tbl.nvars := hW.lvl_lt _ _ hnx
+        have hmono := hz.mono n.lvl nx.lvl hge hnxlt
+        rw [hzu0] at hmono
+        have hne : zoneLevel dvars mb.tbl nx.lvl ≠ d.level := by
+          intro heq
+          obtain ⟨bit', d', hbit', hdl', hdm', hbd'⟩ := hz.owner nx.lvl hnxlt
+          have hzl : zoneLevel dvars mb.tbl nx.lvl = d'.level := by
+            unfold zoneLevel; rw [hbit']; simp only; rw [hdl']
+          have hdd : d' = d := hz.inj d' hdm' d hdm (by rw [← hzl, heq])
+          subst hdd
+          have hlv : lvlOf mb.tbl bit' = nx.lvl :=
+            lvlOf_eq ((hz.order.inv bit' nx.lvl).mpr hbit')
+          have := cofVals_key (t := mb.tbl) i hbd'
+          rw [hlv, hnone] at this
+          cases this
         omega
+  · intro α hα
+    rw [semB_eq dvars hW h3, semB_eq dvars hW huM]
+    unfold denN
+    rw [h4]
+    have hov : ovr (cofVals mb.tbl d.bits i) (mb.tbl.lift (bitsOfInts dvars α)) =
+        mb.tbl.lift (bitsOfInts dvars α) := by
+      unfold cofVals
+      apply ovr_lift_eq hz.order
+      · intro p hp
+        obtain ⟨k', _, hbk, _⟩ := mem_enumBits hp
+        exact hz.decl d hdm p.1 (List.mem_of_getElem? hbk)
+      · exact bitsOfInts_enum hz d hdm α i hα
+    rw [hov]
+
+theorem b2mIntSucc_bddSide (dvars : List MVar) (m2 : Mgr) (u : Nat) (umap : List (Nat × Int))
+    (mb : Mgr) (var : MVar) (succs : List Int) (mb1 : Mgr) (hP : BSide dvars m2 mb)
+    (hK : (m2.tbl.node? u).isSome = true)
+    (hr : b2mIntSucc (b2mBitToVar dvars) u umap mb = (.ok (var, succs), mb1)) :
+    BSide dvars m2 mb1 ∧ SemMono Qb (fun m => semB dvars m.tbl) (Lb dvars) mb mb1 ∧ Qb mb1 u ∧
+    BddSideOK (semB dvars mb1.tbl) (Lb dvars mb1) u umap var succs := by
+  have hI := hP.inv
+  have hW := hI.wf.toWF
+  have hz := hP.zone
+  obtain ⟨n, hn2⟩ := Option.isSome_iff_exists.mp hK
+  have hn : mb.tbl.node? u = some n := by rw [hP.eq]; exact hn2
+  have hu2 : 2 ≤ u := hW.ge_two _ _ hn
+  have hu1 : ((u : Nat) : Int).natAbs ≠ 1 := by simp; omega
+  have hnode : mb.tbl.node? ((u : Nat) : Int).natAbs = some n := by simpa using hn
+  have huM : mb.tbl.Mem (u : Int) := Or.inr (by rw [hnode]; rfl)
+  obtain ⟨hmb, hdm, hzu0, _, hall⟩ := b2mIntSucc_facts dvars u umap mb var succs mb1 hI hz n hn hr
+  subst hmb
+  refine ⟨hP, semMono_refl dvars mb1, huM, ?_, ?_⟩
+  · show zoneLevel dvars mb1.tbl (mb1.tbl.levelOf (u : Int)) = var.level
+    rw [levelOf_node mb1.tbl (u : Int) n hu1 hnode]; exact hzu0
+  · intro i k hk
+    obtain ⟨x, r, h1, h2, hpe⟩ := hall i k hk
+    obtain ⟨hx0, hL, hS⟩ := pathEntry_side hI hz var hdm u n hn hzu0 i x hpe
+    exact ⟨x, r, h1, h2, hx0, hL, hS⟩
 
 /-! ### the main loop, both halves -/
 
@@ -510,7 +517,7 @@ satisfies its invariant, and every `umap` entry `u ↦ r` is right — for every
 node `u` (complemented or not) the MDD reference `flip(r, s)` takes, on every valid integer
 assignment, the value of `s` on the encoded bits.  The BDD manager only grows (`Ext`), keeps its
 invariant and its variable order. -/
-theorem b2mLoop_bdd_sound (dvars : List MVar) (m2 : Mgr) (hI : Inv m2) (hoff : m2.lastLen = none)
+theorem b2mLoop_bdd_sound (dvars : List MVar) (m2 : Mgr) (hI : Inv m2)
     (hz : ZoneOK dvars m2.tbl) (rm ord : List Nat)
     (hord : ∀ u, u ∈ ord → rm.contains u = false → (m2.tbl.node? u).isSome = true)
     (out : B2MOut) (mb' : Mgr)
@@ -520,7 +527,7 @@ theorem b2mLoop_bdd_sound (dvars : List MVar) (m2 : Mgr) (hI : Inv m2) (hoff : m
       mb'.tbl.Mem (u : Int) ∧ out.mdd.tbl.Mem r ∧
       ∀ (s : Int), s.natAbs = u → ∀ α, MValid out.mdd.tbl α →
         denM out.mdd.tbl (flip r s) α = denN mb'.tbl s (bitsOfInts dvars α) := by
-  have hP0 : BSide dvars m2 m2 := ⟨hI, hoff, hz, Ext.refl _, Frame.refl _⟩
+  have hP0 : BSide dvars m2 m2 := ⟨hI, hz, rfl⟩
   have hU0 : UmapOK (semB dvars m2.tbl) (Lb dvars m2) (MddMgr.new (some dvars)) [(1, 1)] := by
     constructor
     intro x r hl
